@@ -31,8 +31,9 @@ RULE = ("catalogues = ALL sequences of length 1..2 (quick) / 1..3 (thorough) ove
         "matters because column types/widths may be taken from the first row.  Every case writes >= 1 file and is "
         "non-trivial; distinct = distinct (sequence, format, prefix, meta).")
 ASSUMPTIONS = ["a value read back from sqlite as NULL is accepted where NaN was written (sqlite cannot hold NaN)",
-               "with a column prefix AegeanTools has no reader (table_to_source_list looks for the bare names), so the "
-               "table returned by load_table is compared cell by cell under the prefixed names instead",
+               "with a column prefix the check renames the columns of the table returned by load_table back to the "
+               "bare names (presence of every prefixed name is checked first) and then calls table_to_source_list, "
+               "which only knows the bare names",
                "1 ulp of a double = numpy.spacing(|x|); single precision = relative error <= 2**-23",
                "a numpy `masked` element is not a NaN and not a string: it counts as 'not preserved'",
                "metadata content is not compared (the property only lists it as a configuration axis); the meta dict "
@@ -44,8 +45,8 @@ PREFIXES = [None, "x"]
 METAS = [0, 1]
 ARCH = ["typ", "neg", "nan", "m1", "ext", "ush", "ulo", "isl", "sim", "blank"]
 ARCH_DOC = dict(typ="typical component", neg="component with negative fluxes/background/dec",
-                nan="component with NaN ra/dec (strings XX:XX:XX.XX as dec2hms/dec2dms give), NaN int_flux, psf, "
-                    "residuals",
+                nan="component as Aegean makes it on a WCS failure: NaN ra/dec/a/b/pa/int_flux/residuals, "
+                    "ra_str = dec_str = 'XX:XX:XX.XX' (what dec2hms/dec2dms return for NaN), psf_* = int 0",
                 m1="component with every err_* = -1 (err_ra/err_dec the int -1 as fitting.py sets them)",
                 ext="component with 1e-30 / 1e+30 magnitudes", ush="component with a 2-character uuid",
                 ulo="component with a 48-character uuid", isl="IslandSource", sim="SimpleSource",
@@ -124,9 +125,10 @@ def expected_row(arch, pos, seed):
             row[n] = -row[n]
         row["dec_str"] = "-" + row["dec_str"][1:]
     elif arch == "nan":
-        for n in ("ra", "dec", "int_flux", "err_int_flux", "residual_mean", "residual_std", "psf_a", "psf_b",
-                  "psf_pa"):
+        for n in ("ra", "dec", "a", "b", "pa", "int_flux", "err_int_flux", "residual_mean", "residual_std"):
             row[n] = float("nan")
+        for n in ("psf_a", "psf_b", "psf_pa"):      # source_finder assigns the int 0 when there is no local beam
+            row[n] = 0
         row["ra_str"] = "XX:XX:XX.XX"
         row["dec_str"] = "XX:XX:XX.XX"
     elif arch == "m1":
@@ -175,39 +177,41 @@ def _is_masked(v):
     return v is np.ma.masked or isinstance(v, np.ma.core.MaskedConstant)
 
 
-def cmp_cell(exp, got, fmt):
+def kind_of(name):
+    return "str" if name in STR_FIELDS else ("int" if name in INT_FIELDS else "float")
+
+
+def cmp_cell(name, exp, got, fmt):
     """-> (violation class or None, relative error or None)"""
+    kind = kind_of(name)
+    isnan = isinstance(exp, float) and exp != exp
     if _is_masked(got):
-        if isinstance(exp, float) and exp != exp:
+        if isnan:
             return "nan_masked", None
-        if isinstance(exp, str) and exp == "":
+        if kind == "str" and exp == "":
             return "emptystr_masked", None
         return "value_masked", None
-    if isinstance(exp, str):
+    if kind == "str":
+        who = "uuid" if name == "uuid" else "coordstr"
         if got is None:
             return "db_null", None
         if isinstance(got, bytes):
-            return "str_bytes", None
+            return who + "_bytes", None
         if not isinstance(got, str):
-            return "str_type", None
+            return who + "_type", None
         if str(got) == exp:
             return None, None
         if len(got) < len(exp) and exp.startswith(str(got)):
-            return "str_truncated", None
-        return "str_diff", None
-    if isinstance(exp, int):
+            return who + "_truncated", None
+        return who + "_diff", None
+    if kind == "int":
         if got is None:
             return "db_null", None
-        if exp == -1:       # the 'no error' marker written as an int
-            try:
-                return (None, 0.0) if float(got) == -1.0 else ("minus1_lost", None)
-            except (TypeError, ValueError):
-                return "minus1_lost", None
         if isinstance(got, (bool, np.bool_)) or not isinstance(got, (int, np.integer)):
             return "int_type", None
         return (None, None) if int(got) == exp else ("int_diff", None)
-    # float
-    if exp != exp:
+    # float-valued column (the value itself may be the int -1 or 0 that Aegean assigns)
+    if isnan:
         if got is None and fmt == "db":
             return None, None
         if isinstance(got, (float, np.floating)) and got != got:
@@ -218,7 +222,7 @@ def cmp_cell(exp, got, fmt):
     if isinstance(got, (bool, np.bool_, str, bytes)) or not isinstance(got, (int, float, np.integer, np.floating)):
         return "float_type", None
     g = float(got)
-    if exp == -1.0:
+    if exp == -1:
         return (None, 0.0) if g == -1.0 else ("minus1_lost", None)
     if g != g or g in (float("inf"), float("-inf")):
         return "float_nonfinite", None
@@ -226,23 +230,24 @@ def cmp_cell(exp, got, fmt):
     rel = err / abs(exp) if exp != 0 else err
     if fmt == "fits":
         return (None, rel) if rel <= F32_REL else ("float32_precision", rel)
-    return (None, rel) if err <= float(np.spacing(abs(exp))) else ("double_precision", rel)
+    return (None, rel) if err <= float(np.spacing(abs(float(exp)))) else ("double_precision", rel)
 
 
 # ---------------------------------------------------------------------------
 def read_table_format(path, tag, fmt, prefix, names):
-    """rows read back with AegeanTools: list of dicts name -> value; raises what AegeanTools raises.
-    -> (rows, missing columns)"""
+    """rows read back with AegeanTools (load_table + table_to_source_list): list of dicts name -> value; raises what
+    AegeanTools raises.  With a prefix the columns are renamed back to the bare names first (that is all a user can
+    do: table_to_source_list only knows the bare names).  -> (rows, missing columns)"""
     t = catalogs.load_table(path)
     pre = "" if prefix is None else prefix + "_"
     missing = [n for n in names if pre + n not in t.colnames]
+    if pre:
+        for n in names:
+            if pre + n in t.colnames and n not in t.colnames:
+                t.rename_column(pre + n, n)
     rows = []
-    if prefix is None:
-        for s in catalogs.table_to_source_list(t, src_type=CLS[tag]):
-            rows.append({n: getattr(s, n) for n in names if n not in missing})
-    else:
-        for r in t:
-            rows.append({n: r[pre + n] for n in names if n not in missing})
+    for s in catalogs.table_to_source_list(t, src_type=CLS[tag]):
+        rows.append({n: getattr(s, n) for n in names if n not in missing})
     return rows, missing
 
 
@@ -338,7 +343,7 @@ def roundtrip(seq_desc, srcs, exp, fmt, prefix, meta, ctx, sig_tail):
                         if n not in grow:
                             continue
                         ctx.count("cells_compared")
-                        cls, rel = cmp_cell(erow[n], grow[n], fmt)
+                        cls, rel = cmp_cell(n, erow[n], grow[n], fmt)
                         if rel is not None:
                             ctx.note_max("relerr_single_fits" if fmt == "fits" else "relerr_double_formats", rel)
                         if cls is not None:
